@@ -19,7 +19,7 @@ from skepticoin.networking.local_peer import LocalPeer
 from skepticoin.networking.disk_interface import DiskInterface
 from skepticoin.networking.remote_peer import (
     ConnectedRemotePeer, DisconnectedRemotePeer, INCOMING, OUTGOING, load_peers_from_list)
-from skepticoin.networking.messages import HelloMessage, SupportedVersion, PeersMessage, Peer, MessageHeader
+from skepticoin.networking.messages import Message, HelloMessage, SupportedVersion, PeersMessage, Peer, MessageHeader
 from skepticoin.coinstate import CoinState
 
 
@@ -78,6 +78,10 @@ class RealBook:
         self.fake = FakeSocketModule()
         lpm.socket = self.fake
         self.lp = LocalPeer(disk_interface=PeersDisk())
+        # the node's own nonce is any 32-bit number: every other book gets one with the top bit set
+        RealBook.instances = getattr(RealBook, "instances", 0) + 1
+        if RealBook.instances % 2 == 1:
+            self.lp.nonce |= 0x80000000
         self.lp.chain_manager.set_coinstate(CoinState.zero())
         self.nm = self.lp.network_manager
         self.nm.disconnected_peers = load_peers_from_list([(h, p, OUTGOING) for h, p in initial])
@@ -136,6 +140,7 @@ class RealBook:
             return False
         nonce = self.lp.nonce if mine else (self.lp.nonce + 1) % (2 ** 32)
         m = HelloMessage([SupportedVersion(0)], IPv6Address(bytes(16)), 0, IPv6Address(bytes(16)), my_port, nonce, b"x")
+        m = Message.deserialize(m.serialize())          # as it comes off the wire
         self.guard(p.handle_hello_message_received, self.header(), m)
         return True
 
